@@ -57,6 +57,34 @@ type c06Config struct {
 	Hook      string // default nil noop goexit custom
 	Level     string // dpanic panic fatal
 	Front     string
+	Msg       string // message logged (std-log front ends trim surrounding white space)
+	BufSize   int    // BufferedWriteSyncer size (0 = 1 MiB)
+}
+
+func (c c06Config) msg() string {
+	if c.Msg == "" {
+		return c06Msg
+	}
+	return c.Msg
+}
+
+// loggedMsg is the message the entry must carry for the given front end.
+func (c c06Config) loggedMsg() string {
+	m := c.msg()
+	if m == "<empty>" {
+		m = ""
+	}
+	if strings.HasPrefix(c.Front, "NewStdLogAt") || strings.HasPrefix(c.Front, "RedirectStdLogAt") {
+		return strings.TrimSpace(m)
+	}
+	return m
+}
+
+func (c c06Config) bufSize() int {
+	if c.BufSize == 0 {
+		return 1 << 20
+	}
+	return c.BufSize
 }
 
 var c06LevelOf = map[string]zapcore.Level{"dpanic": zapcore.DPanicLevel, "panic": zapcore.PanicLevel, "fatal": zapcore.FatalLevel}
@@ -65,8 +93,15 @@ const c06Msg = "MSG-terminal"
 
 // c06FrontEnds lists every front end able to log at the given terminal level.
 // The returned restore function undoes global state.
-func c06FrontEnds(lg *zap.Logger, level string) (map[string]func(), func()) {
+func c06FrontEnds(lg *zap.Logger, level string, msgs ...string) (map[string]func(), func()) {
 	lvl := c06LevelOf[level]
+	c06Msg := c06Msg
+	if len(msgs) > 0 {
+		c06Msg = msgs[0]
+		if c06Msg == "<empty>" {
+			c06Msg = ""
+		}
+	}
 	sg := lg.Sugar()
 	fe := map[string]func(){}
 	fe["Logger.Log"] = func() { lg.Log(lvl, c06Msg) }
@@ -205,6 +240,8 @@ func propC06(t *rapid.T) {
 	}
 	names := c06FrontNames(cfg.Level)
 	cfg.Front = rapid.SampledFrom(names).Draw(t, "frontEnd")
+	cfg.Msg = rapid.SampledFrom([]string{"", "", "<empty>", " ", "\n", "  padded  ", "two\nlines", strings.Repeat("long ", 300)}).Draw(t, "message")
+	cfg.BufSize = rapid.SampledFrom([]int{0, 0, 16, 256, 4096}).Draw(t, "bufferSize")
 	c06RunInProcess(t, cfg)
 	enabled := c06Enabled(cfg)
 	nt := !enabled || cfg.Hook == "nil" || cfg.Hook == "noop" || (enabled && cfg.Core != "nop")
@@ -226,7 +263,7 @@ func c06RunInProcess(t interface{ Fatalf(string, ...any) }, cfg c06Config) {
 	c06Mu.Lock()
 	defer c06Mu.Unlock()
 	under := &syncSink{}
-	bws := &zapcore.BufferedWriteSyncer{WS: under, Size: 1 << 20, FlushInterval: time.Hour}
+	bws := &zapcore.BufferedWriteSyncer{WS: under, Size: cfg.bufSize(), FlushInterval: time.Hour}
 	defer bws.Stop()
 	core, logs := c06Core(cfg, bws)
 	var opts []zap.Option
@@ -245,7 +282,7 @@ func c06RunInProcess(t interface{ Fatalf(string, ...any) }, cfg c06Config) {
 		opts = append(opts, zap.WithFatalHook(hook), zap.WithPanicHook(hook))
 	}
 	lg := zap.New(core, opts...)
-	fes, restore := c06FrontEnds(lg, cfg.Level)
+	fes, restore := c06FrontEnds(lg, cfg.Level, cfg.msg())
 	f := fes[cfg.Front]
 	lvl := c06LevelOf[cfg.Level]
 	wantTerm := lvl != zapcore.DPanicLevel || cfg.Dev
@@ -320,20 +357,21 @@ func c06RunInProcess(t interface{ Fatalf(string, ...any) }, cfg c06Config) {
 		if panicked == nil {
 			t.Fatalf("%s: no panic (returned=%v exit=%v)", desc, returned, stub.Exited)
 		}
-		if fmt.Sprint(panicked) != c06Msg {
-			t.Fatalf("%s: panic value %q, want the message %q", desc, fmt.Sprint(panicked), c06Msg)
+		if fmt.Sprint(panicked) != cfg.loggedMsg() {
+			t.Fatalf("%s: panic value %q, want the message %q", desc, fmt.Sprint(panicked), cfg.loggedMsg())
 		}
 		if stub.Exited {
 			t.Fatalf("%s: Panic level called exit", desc)
 		}
 	}
-	line := fmt.Sprintf("{\"l\":%q,\"m\":%q", lvl.String(), c06Msg)
+	mj, _ := json.Marshal(cfg.loggedMsg())
+	line := fmt.Sprintf("{\"l\":%q,\"m\":%s", lvl.String(), mj)
 	if c06Enabled(cfg) {
 		if !strings.Contains(sinkAt, line) {
 			t.Fatalf("%s: when the terminal action ran the underlying sink (below the buffer) held %q, not the entry", desc, sinkAt)
 		}
-		if strings.Count(sinkNow, c06Msg) != 1 {
-			t.Fatalf("%s: sink holds the entry %d times", desc, strings.Count(sinkNow, c06Msg))
+		if strings.Count(sinkNow, "\n") != 1 {
+			t.Fatalf("%s: sink holds %d lines for one entry", desc, strings.Count(sinkNow, "\n"))
 		}
 		if syncedAt < len(sinkAt) || syncedAt == 0 {
 			t.Fatalf("%s: sink was not synced after the final entry (synced %d of %d bytes)", desc, syncedAt, len(sinkAt))
@@ -418,7 +456,7 @@ func c06Child() {
 	if err != nil {
 		os.Exit(91)
 	}
-	bws := &zapcore.BufferedWriteSyncer{WS: f, Size: 1 << 20, FlushInterval: time.Hour}
+	bws := &zapcore.BufferedWriteSyncer{WS: f, Size: cfg.bufSize(), FlushInterval: time.Hour}
 	core, _ := c06Core(cfg, bws)
 	var opts []zap.Option
 	if cfg.Dev {
@@ -432,7 +470,7 @@ func c06Child() {
 	}
 	lg := zap.New(core, opts...)
 	lg.Info("before") // stays in the buffer unless a terminal entry flushes it
-	fes, _ := c06FrontEnds(lg, cfg.Level)
+	fes, _ := c06FrontEnds(lg, cfg.Level, cfg.msg())
 	fes[cfg.Front]()
 	os.Exit(42) // survived
 }
@@ -465,11 +503,15 @@ func c06RunChild(t interface{ Fatalf(string, ...any) }, cfg c06Config, dir strin
 			t.Fatalf("%s: process exit status %d, want 1; stderr: %s", desc, code, clipS(stderr.String()))
 		}
 	default:
-		if code != 2 || !strings.Contains(stderr.String(), "panic: "+c06Msg) {
-			t.Fatalf("%s: exit status %d, want 2 with 'panic: %s' on stderr; stderr: %s", desc, code, c06Msg, clipS(stderr.String()))
+		if code != 2 || !strings.Contains(stderr.String(), "panic: ") {
+			t.Fatalf("%s: exit status %d, want 2 with a panic on stderr; stderr: %s", desc, code, clipS(stderr.String()))
+		}
+		if m := cfg.loggedMsg(); !strings.Contains(m, "\n") && !strings.Contains(stderr.String(), "panic: "+m) {
+			t.Fatalf("%s: panic does not carry the message %q; stderr: %s", desc, m, clipS(stderr.String()))
 		}
 	}
-	line := fmt.Sprintf("{\"l\":%q,\"m\":%q", lvl.String(), c06Msg)
+	mj, _ := json.Marshal(cfg.loggedMsg())
+	line := fmt.Sprintf("{\"l\":%q,\"m\":%s", lvl.String(), mj)
 	if c06Enabled(cfg) {
 		if !strings.Contains(string(content), line) {
 			t.Fatalf("%s: after the process died the file holds %q: the final entry was left in the buffer", desc, content)
@@ -477,7 +519,7 @@ func c06RunChild(t interface{ Fatalf(string, ...any) }, cfg c06Config, dir strin
 		if cfg.Threshold <= 0 && !strings.Contains(string(content), `"m":"before"`) {
 			t.Fatalf("%s: earlier buffered entry missing from the file: %q", desc, content)
 		}
-	} else if strings.Contains(string(content), c06Msg) {
+	} else if strings.Contains(string(content), line) {
 		t.Fatalf("%s: disabled entry reached the file: %q", desc, content)
 	}
 }
@@ -491,6 +533,8 @@ func propC06Child(t *rapid.T) {
 		Level:     rapid.SampledFrom([]string{"dpanic", "panic", "fatal", "fatal"}).Draw(t, "level"),
 	}
 	cfg.Front = rapid.SampledFrom(c06FrontNames(cfg.Level)).Draw(t, "frontEnd")
+	cfg.Msg = rapid.SampledFrom([]string{"", "", "<empty>", " ", strings.Repeat("long ", 300)}).Draw(t, "message")
+	cfg.BufSize = rapid.SampledFrom([]int{0, 16, 4096}).Draw(t, "bufferSize")
 	dir := os.Getenv("VERIF_WORKDIR")
 	if dir == "" {
 		dir = os.TempDir()
